@@ -60,7 +60,7 @@ reg("C19", ["c19_ring.c"],
          "init, every operation (put a, put b, get, clear, override on/off) is executed from every reached "
          "(head, tail, override, data[], model queue) state until no new state appears; after each transition "
          "size/empty/full and both iterators are compared with the queue model. 'history': seeded random histories "
-         "with unique element ids at capacities 1..64 (override mode switched on with any non-zero value: 1, 2, 0x80, 2^31 ...). A signature is a distinct reached (implementation state, "
+         "with unique element ids at capacities 1..64 (override mode switched on with any non-zero value: 1, 2, 0x80, 2^31 ...); every history unit first asks size/empty/full in straight-line code (init, put, put put, get, clear; three element types) inside non-inlined functions, so that the optimised configurations see what the header lets the compiler assume. A signature is a distinct reached (implementation state, "
          "queue) pair or a (history unit, index); evaluations counts transitions/operations executed.",
     exhaustive={"quick": "all reachable (implementation state, queue) pairs for capacities 1..4 over a two-value alphabet",
                 "thorough": "all reachable (implementation state, queue) pairs for capacities 1..4 over a two-value alphabet"})
@@ -72,7 +72,8 @@ reg("C18", ["c18_bytebuf.c"],
          "'setup': set/use/space on all argument combinations size 0..6 x used 0..7 x offset 0..8 x NULL; "
          "'history': seeded random histories on sizes 1..300 (and 255..66000) with operand lengths biased to the "
          "boundary (every second history carries zero octets). Requests that must be refused get no destination (NULL) or a poisoned one a third of the time "
-         "each. 'gigantic': one buffer of 2 GiB + 4 KiB mapped for the unit - add of all of it, rewind moving more "
+         "each; a third of the acceptable consumes deliver into the buffer's own memory, within the octets consumed "
+         "before (disjoint from what is read). 'gigantic': one buffer of 2 GiB + 4 KiB mapped for the unit - add of all of it, rewind moving more "
          "than 2^31 octets, one consume of 2^31 + 2048 octets, at-most calls asking for and returning more than "
          "2^31 octets, content checked at probe positions around the 2^31 mark (not carried out, and not judged, "
          "where the mapping is refused). A "
@@ -400,7 +401,7 @@ reg("C09", ["c09_regp_safety.c"], level="fault_enumeration",
     fuzz={"target": "fuzz/fz_regp.c", "runs": {"quick": 640000, "thorough": 48000000}, "max_len": 700},
     rule="'lengths': both transports x allocator block sizes {65,66,70,75..82,96,128,200} (capacity = block - "
          "sizeof(RPFrame)) x every frame length 0..capacity+40 (8-bit write request, cut short or padded where no "
-         "complete frame has that length); 'reads': both transports x 8/16-bit memory x block sizes "
+         "complete frame has that length; TCP frames also with both checksum options set); 'reads': both transports x 8/16-bit memory x block sizes "
          "{81,96,100,101,128,129,257} x every read block size from 20 below to 24 above the transmit limit; "
          "'allocfail': sessions of 6 frames with the k-th allocation failing, k = 0..5; 'chanerr': a source error at "
          "every octet position of the wire image of generated requests (followed by an intact frame), invalid SLIP "
